@@ -38,7 +38,7 @@ CALLS = ["ac_power", "ac_mode", "ac_fan", "ac_temp", "timer_time", "timer_clear"
 
 
 def bounds(tier):
-    return {"acs": 1, "zones": 2, "set_point": "integer 10..35", "temperature_value": "0..2000", "mode_bitmap": "5 free bits", "fan_bitmap": "7 free bits (AT5 bit 8 = 0)"}
+    return {"acs": 1, "zones": 2, "zone_order_blocks": "2..3 contiguous zones" if tier == "quick" else "2..6 contiguous zones at every start", "set_point": "integer 10..35", "temperature_value": "0..2000", "mode_bitmap": "5 free bits", "fan_bitmap": "7 free bits (AT5 bit 8 = 0)"}
 
 
 def instances(tier):
@@ -48,6 +48,9 @@ def instances(tier):
     out.append({"kind": "handshake_extra"})
     out.append({"kind": "zone_order"})
     out.append({"kind": "zone_order", "old_format": True})       # AT4 ability record without group bitmap; names listed out of order
+    if tier == "thorough":
+        out.append({"kind": "zone_order", "max_count": 6})
+        out.append({"kind": "zone_order", "old_format": True, "max_count": 6})
     return out
 
 
@@ -324,12 +327,13 @@ def _handshake_extra(ctx, p):
 def _zone_order(ctx, p):
     """The same contiguous block of zones (solver-chosen start and count) belongs to the AC on both consoles: the AC exposes the
     same sequence of zones (and the AirTouch the same sequence of air-conditioners) over both generations."""
-    start = ctx.choice("start", 14)
-    count = 2 + ctx.choice("count", 2)
+    mc = p.get("max_count", 3)
+    start = ctx.choice("start", 17 - mc)
+    count = 2 + ctx.choice("count", mc - 1)
     old = bool(p.get("old_format"))
     if old:
         start = 0                     # a single AC of an old console owns all groups
-    rot = ctx.choice("listing", 3) if old else 0       # the console lists its zone names starting at this position
+    rot = ctx.choice("listing", count) if old else 0   # the console lists its zone names starting at this position
     seqs = {}
     for gen in (4, 5):
         g = Gen(gen)
